@@ -41,12 +41,18 @@ def bfsLevels (g : Graph) (sorted : Bool) : Nat → List Nat → List Nat → Ar
         bfsLevels g sorted fuel (el ++ fresh') lay mask'
     else (el, lay, mask)
 
+/-- root selection of `_build_layers`: the first unmasked node of strictly smallest degree
+(`if((deg < min) && (elem_mask[j] == 0))`, `min` starting at `num_elems + 1`) -/
+def minDegRoot (g : Graph) (mask : Array Bool) : Option Nat :=
+  ((List.range g.nDom).foldl (fun (acc : Option Nat × Nat) j =>
+    if g.degree j < acc.2 && !CM.isMasked mask j then (some j, g.degree j) else acc) (none, g.nDom + 1)).1
+
 /-- outer `while`: pick the unmasked node of minimum degree as the new root. `none` = XASSERT "no valid root" -/
 def bfsOuter (g : Graph) (sorted : Bool) : Nat → List Nat → List Nat → Array Bool → Option (List Nat × List Nat)
   | 0, el, lay, _ => if el.length < g.nDom then none else some (el, lay)
   | fuel + 1, el, lay, mask =>
     if el.length < g.nDom then
-      match CM.findRoot g .minDeg mask with
+      match minDegRoot g mask with
       | none => none
       | some root =>
         let mask := mask.setIfInBounds root true
